@@ -7,6 +7,8 @@ Line-protocol driver `hdb` (DESIGN.md appendix A), the model side of harness/hdb
 Ops (one per line):
   `create R1 R2 …`   values returned by the successive `random()` calls (decimal; calls beyond the
                      list repeat the last value, no value = 0)   → `ok K HANDLE16HEX` | `E…`
+  `createfail`       qb_hdb_handle_create with instance_size = -1 (malloc fails) → `E…`
+  `dump`             → `tbl hc=N it=N SLOT:STATE:REFCOUNT:CHECK8HEX:INST …` the table itself (correspondence only)
   `get H` `geta H`   → `ok K` | `E…`        (K = number written into the instance by the harness)
   `put H` `destroy H` → [`dtor K` …] `ok` | `E…`
   `refcount H`       → `rc N`               (the raw int32 return value)
@@ -39,8 +41,12 @@ def parseHexNat (s : String) : Option Nat :=
 def hex16 (n : Nat) : String :=
   String.ofList ((List.range 16).reverse.map fun i => hexNib (n / 16^i % 16))
 
+def hex8 (n : Nat) : String :=
+  String.ofList ((List.range 8).reverse.map fun i => hexNib (n / 16^i % 16))
+
 def errName (rc : Int) : String :=
   if rc = EBADF then "EBADF" else if rc = EINVAL then "EINVAL" else if rc = ERANGE then "ERANGE"
+  else if rc = ENOMEM then "ENOMEM"
   else s!"E{-rc}"
 
 def instName : Option Nat → String
@@ -77,6 +83,13 @@ def showOut : Out → String
   | .iter rc inst h => if rc = 0 then s!"ok {instName inst} {hex16 h}" else "end"
   | .unit => "ok"
 
+/-- struct qb_hdb and its entries below handle_count, as harness/hdb/hdb_drv.c prints them -/
+def dumpLine (st : St) : String :=
+  let ents := (List.range st.handleCount).map fun j =>
+    let e := st.tbl.get j
+    s!" {j}:{e.state}:{e.refCount}:{hex8 e.check}:{instName e.inst}"
+  s!"tbl hc={st.handleCount} it={st.iterator}" ++ String.join ents
+
 def step (d : DSt) (ws : List String) : DSt × List String :=
   match ws with
   | "create" :: rs =>
@@ -87,6 +100,8 @@ def step (d : DSt) (ws : List String) : DSt × List String :=
       match o with
       | .created 0 h => (⟨st', d.issued.push h⟩, [s!"ok {d.issued.size} {hex16 h}"])
       | o => (⟨st', d.issued⟩, [showOut o])
+  | ["createfail"] => let (st', os) := d.st.step .createFail; (⟨st', d.issued⟩, os.map showOut)
+  | ["dump"] => (d, [dumpLine d.st])
   | ["iter_reset"] => let (st', os) := d.st.step .iterReset; (⟨st', d.issued⟩, os.map showOut)
   | ["iter_next"] => let (st', os) := d.st.step .iterNext; (⟨st', d.issued⟩, os.map showOut)
   | [cmd, htok] =>
